@@ -321,6 +321,17 @@ theorem C12_overlapping_calls (cfg : Cfg) (r : Reg) (k : Svc) (ctxVal : String) 
       obtain ⟨e1, e2, e3⟩ := hr
       exact ⟨e1.symm, e3.symm, fun key => by rw [← e2]; exact C12_call_args ctxVal d key⟩
 
+/-- **Data that fits the function's parameters is delivered unchanged; data that does not fit never runs the function**:
+the handler's keyword arguments go through python's binding – a missing required parameter or an unknown keyword
+without `**kwargs` is a (logged) `TypeError`, everything else reaches the function as given. -/
+theorem C12_bind (sigs : List (Nat × Sig)) (s : Sig) (g : Nat) (kw : Kw) (rr : Bool) (hs : aget g sigs = some s) :
+    (bindOK s kw = false → bound sigs (.ran g kw rr) = .bindError) ∧
+    (bindOK s kw = true → (rr = false ∨ answerIsDict kw = true) → bound sigs (.ran g kw rr) = .ran g kw rr) ∧
+    (bindOK s kw = true ↔ (∀ p ∈ s.required, (aget p kw).isSome = true) ∧ (s.extra = true ∨ ∀ q ∈ kw, q.1 ∈ s.params)) := by
+  refine ⟨fun h => by simp [bound, hs, h], fun h hr => ?_, ?_⟩
+  · rcases hr with hr | hr <;> simp [bound, hs, h, hr]
+  · simp [bindOK, List.all_eq_true]
+
 /-- **Outgoing calls deliver exactly the given keyword parameters**: with distinct keywords and no task context, the
 service data of `service.call` / `domain.service()` / `domain.entity.service()` is every keyword that is not a call
 control of the right type, in the given order (decision logic over the control table of the entry point); an entity
